@@ -426,6 +426,48 @@ fn frontend_complement(cfg: &Cfg, rng: &mut Rng) {
     }
 }
 
+/// An answer to GET_FEATURES that the frontend rejects is not an offer: after it, the protocol-feature
+/// exchange and the ring switch must stay refused (nothing on the wire), whatever the rejected answer said.
+fn frontend_rejected_offer(cfg: &Cfg, rng: &mut Rng) {
+    let value = spec::p_u64(spec::VIRTIO_F_PROTOCOL_FEATURES | 1);
+    let variants: [(&str, u32, u32, usize); 4] = [
+        ("with-descriptor", fe::GET_FEATURES, spec::F_VERSION1 | spec::F_REPLY, 1),
+        ("other-request-code", fe::GET_PROTOCOL_FEATURES, spec::F_VERSION1 | spec::F_REPLY, 0),
+        ("reply-flag-clear", fe::GET_FEATURES, spec::F_VERSION1, 0),
+        ("version-2", fe::GET_FEATURES, 2 | spec::F_REPLY, 0),
+    ];
+    let probes = [FeOp::GetProtocolFeatures, FeOp::SetProtocolFeatures(spec::PF_REPLY_ACK | 1), FeOp::SetVringEnable(0, true)];
+    for (vi, (vname, code, flags, nfds)) in variants.iter().enumerate() {
+        for (pi, op) in probes.iter().enumerate() {
+            if !cfg.mine((vi * probes.len() + pi) as u64) {
+                continue;
+            }
+            let (mut f, peer) = util::raw_frontend(8);
+            let file = sys::memfd("c07", 4096);
+            let fds: Vec<i32> = if *nfds == 1 { vec![std::os::unix::io::AsRawFd::as_raw_fd(&file)] } else { vec![] };
+            sys::send_all(std::os::unix::io::AsRawFd::as_raw_fd(&peer), &spec::msg(*code, *flags, &value), &fds).expect("send");
+            let r = f.get_features();
+            report::eval(1);
+            report::count("fe.rejected_offer_probes", 1);
+            report::distinct_str(&format!("rejected-offer:{vname}:{}", op.name()));
+            if r.is_ok() {
+                // accepting it is for C06 to judge; then it *is* an offer
+                report::observe(&format!("rejected-offer:{vname}:accepted"), J::Null);
+                continue;
+            }
+            let mut d = sys::drain_nb(std::os::unix::io::AsRawFd::as_raw_fd(&peer));
+            d.close_fds();
+            if matches!(op, FeOp::SetVringEnable(..)) {
+                let _ = f.set_features(spec::VIRTIO_F_PROTOCOL_FEATURES | 1);
+                let mut d = sys::drain_nb(std::os::unix::io::AsRawFd::as_raw_fd(&peer));
+                d.close_fds();
+            }
+            let st = FeState { offered_virtio_pf: false, acked_virtio_pf: false, acked_pf: 0 };
+            fe_probe(cfg, &mut f, &peer, op, &st, &format!("ferejected:{}", vi * probes.len() + pi), rng);
+        }
+    }
+}
+
 fn frontend_orders(cfg: &Cfg, rng: &mut Rng) {
     let probes = fe_probe_ops(rng);
     // alphabet: 0 get_features(offer PF) 1 get_features(no PF) 2 set_features(PF) 3 set_features(no PF)
@@ -554,6 +596,7 @@ pub fn run(cfg: &Cfg) {
         ("fe", frontend_subsets),
         ("feorder", frontend_orders),
         ("fecomp", frontend_complement),
+        ("ferejected", frontend_rejected_offer),
         ("srvcomp", server_complement),
         ("proxy", proxy_gates),
     ];
